@@ -44,12 +44,27 @@ def reg(file, fn, props, tier="quick", flavour="real", timeout=600, timeout_thor
     return d
 
 
+# The quick tier has to finish well inside 900 s on 16 cores (measured by `vp check`): harnesses
+# that alone take > 250 s, or that ran out of memory once, run in the thorough tier only.
+QUICK_DEMOTE = {
+    "verif_dispatch::short::c01_len39", "verif_dispatch::batch_forget::c01_oversize", "verif_dispatch::op19::c01",
+    "verif_ops_a::getattr::c01_devfail", "verif_ops_a::getattr::c01_tiny", "verif_ops_a::getattr::c01_zero",
+    "verif_ops_a::getattr::c01_nospace", "verif_ops_a::getattr::c01_trunc", "verif_ops_b::symlink::c01",
+    "verif_ops_b::mkdir::c01_lenhigh", "verif_dispatch::setlkw::c02",
+    "verif_core::c07_rootmnt_rename_pseudo_dir", "verif_core::c07_rootmnt_rename_same",
+}
+
+
+def is_quick(h):
+    return h["tier"] == "quick" and not any(h["fqn"].endswith(d) for d in QUICK_DEMOTE)
+
+
 def select(pid, tier):
     out = []
     for h in H:
         if pid not in h["props"]:
             continue
-        if tier == "quick" and h["tier"] != "quick":
+        if tier == "quick" and not is_quick(h):
             continue
         out.append(dict(h))
     return out
@@ -275,6 +290,10 @@ reg_vfs("c07_convert_inode", ["C07"], what="convert_inode for all (index, inode)
 for v in ("a", "b", "vacant"):
     reg_vfs("c07_route_setattr_" + v, ["C07"], quick=v != "b", what="routing of an inode at index %s (SETATTR)" % v, bounds="index concrete (mounted A=1 / mounted B=7 / vacant 3), 56 backend inode bits and backend answer symbolic",
             functions=["Vfs::setattr", "Vfs::get_real_rootfs", "Vfs::get_fs_by_idx", "Vfs::convert_attr"])
+for v in ("b", "vacant"):
+    reg_vfs("c07_rootmnt_route_setattr_" + v, ["C07"], quick=False, what="routing of an inode at index %s while backend A is ALSO mounted on the VFS root (SETATTR)" % v,
+            bounds="index concrete (mounted B=7 / vacant 3), 56 backend inode bits (including 1 = ROOT_ID) and backend answer symbolic; root mount of A present",
+            functions=["Vfs::setattr", "Vfs::get_real_rootfs (root special case only for pseudo-fs inodes)", "Vfs::get_fs_by_idx", "Vfs::convert_attr"])
 for v in ("a", "vacant"):
     reg_vfs("c07_route_getattr_" + v, ["C07"], quick=False, what="GETATTR wiring at index %s (fixed backend inode)" % v, bounds="backend inode fixed (5); backend answer symbolic",
             functions=["Vfs::getattr", "Vfs::get_real_rootfs", "Vfs::convert_attr"])
@@ -295,6 +314,26 @@ for i, op in enumerate(["lookup", "getattr", "setattr", "mkdir", "mknod", "symli
                 what="%s through backend %s (A has its own mapping or none, B falls back to the global one)" % (op, v),
                 bounds="global and per-mount mapping (or none) symbolic; caller uid/gid, owner ids in the request and in the backend's answer symbolic; mount concrete",
                 functions=["Vfs::%s" % op, "Vfs::id_remap_with_nodeid", "get_effective_id_mapping", "remap_id", "convert_entry/convert_attr/remap_attr_id"])
+MOUNT_STUB = ["PseudoFs::mount -> returns a fixed pseudo directory inode (2): std::path parsing and the pseudo inode HashMap are environment for the mount step"]
+UW_PI = {"std::sync::Arc::<api::pseudo_fs::PseudoInode>::drop_slow": 1}
+reg(VFS, "c14_mount_step", ["C14", "C07"], tier="quick", flavour="real", timeout=800, timeout_thorough=2400, support=VSUP, cost=3, mem=16,
+    what="ONE Vfs::mount_with_id_mapping step from a state whose vacant target slot may still carry ANY stale per-mount mapping",
+    bounds="8-entry tables, allocator at the vacant slot 3; global, A's, the stale and the new mount's own mapping (or none) all symbolic; backend root inode and largest inode symbolic",
+    functions=["Vfs::mount_with_id_mapping", "Vfs::allocate_fs_idx", "Vfs::get_effective_id_mapping"],
+    stubs=VFS_STUBS + ["Vfs::insert_mount_locked -> recorder capturing (index, root inode, effective mapping at insertion time); the real function is decided by c14_insert_mount_*"],
+    assumptions=VFS_ASSUME + ["pre-state: the slot to be allocated is vacant but may carry any mapping (reachable through an over-mount; findings/c14_slot_reuse_demo.rs shows the history natively)"],
+    role="c14_mount_step", unwindset=UW_PI)
+for v in ("fresh", "over"):
+    reg(VFS, "c14_insert_mount_" + v, ["C14", "C07"], tier="thorough", flavour="real", timeout=1500, timeout_thorough=3000, support=VSUP, cost=4, mem=20,
+        what="Vfs::insert_mount_locked (%s): slot registration, over-mount vacating, mount root cached with translated owner ids" % ("mount path free" if v == "fresh" else "over-mounting backend A"),
+        bounds="8-entry tables; global and the slot's own mapping (or none), root inode and owner ids symbolic; mount-point key concrete (2)",
+        functions=["Vfs::insert_mount_locked", "Vfs::convert_entry", "Vfs::get_effective_id_mapping", "remap_id", "HashMap<u64, Arc<MountPointData>>::{clone, get, insert}"],
+        stubs=VFS_STUBS + MOUNT_STUB, assumptions=VFS_ASSUME, role="c14_insert_mount_" + v, unwindset=UW_PI)
+reg(VFS, "c07_allocate_idx", ["C07"], tier="quick", flavour="real", timeout=800, timeout_thorough=2400, support=VSUP, cost=3, mem=16,
+    what="Vfs::allocate_fs_idx as one step across the index wrap-around", bounds="full 256-entry table; allocator at 253; occupancy of slots 253,254,255,1,2,3,4 symbolic (2^7 patterns), slot 5 vacant; unwind 260",
+    functions=["Vfs::allocate_fs_idx"], stubs=VFS_STUBS, assumptions=["allocator position concrete (253): a symbolic position ran out of memory at 16 GB"],
+    role="c07_allocate_idx", unwindset=UW_PI)
+reg_vfs("c07_rootmnt_b_ino1", ["C07"], quick=True, timeout=800, what="under a root mount of A, inode (B, ROOT_ID) is delivered to B and the VFS root to A's root", bounds="concrete inodes", functions=["Vfs::access", "Vfs::get_real_rootfs"])
 reg_vfs("c14_effective_mapping", ["C14"], what="effective mapping for every index", bounds="index u8, three mappings symbolic", functions=["Vfs::get_effective_id_mapping"])
 reg_vfs("c12_vfs_init", ["C12"], what="Vfs::init option algebra, second INIT", bounds="no_open/no_opendir/no_writeback/killpriv_v2 switches, offered and client option words all symbolic",
         functions=["<Vfs as FileSystem>::init", "Vfs::options"])
@@ -339,6 +378,19 @@ for fn, q in [("c04_filebuf_read_slice", True), ("c04_filebuf_write_slice", True
         functions=["<FileVolatileSlice as Bytes<usize>>::{read, write, read_slice, write_slice, load, store}", "FileVolatileSlice::{from_raw_ptr, offset, len, as_ptr, as_volatile_slice, from_volatile_slice, borrow_as_buf}",
                    "FileVolatileBuf::{new_with_data, io_slice, io_slice_mut, set_size, len, cap}", "vm_memory::VolatileSlice::{read,write,read_slice,write_slice,load,store} (the callee)"],
         stubs=[STUB_FMT], role=fn)
+FDW = "harness/real/fusedev__writer.rs"
+FDW_FUNCS = ["transport::fusedev::FuseDevWriter::{new, split_at, commit, bytes_written, available_bytes, account_written, check_available_space, do_write, write_from, write_from_at, write_all_from}",
+             "<FuseDevWriter as std::io::Write>::{write, write_vectored}", "FileVolatileSlice::from_raw_ptr", "<&mut F as FileReadWriteVolatile>::{read_vectored_volatile, read_vectored_at_volatile}"]
+FDW_STUBS = [STUB_FMT, "nix::unistd::write / nix::sys::uio::writev -> ghost device recording every call (bytes, call count, fd), may refuse or accept short (symbolic)",
+             "scripted FileReadWriteVolatile source producing a symbolic number of symbolic bytes"]
+for fn, q, props in [("c04_fdw_split4", True, ["C04", "C01"]), ("c04_fdw_split0", False, ["C04", "C01"]), ("c04_fdw_split12", False, ["C04", "C01"]), ("c04_fdw_split_edges", True, ["C04"]),
+              ("c04_fdw_unbuffered_write", True, ["C04", "C01"]), ("c04_fdw_unbuffered_vectored", True, ["C04", "C01"]),
+              ("c04_fdw_write_from_buffered", True, ["C04"]), ("c04_fdw_write_from_at_buffered", False, ["C04"]), ("c04_fdw_write_from_unbuffered", False, ["C04"]),
+              ("c04_fdw_write_from_at_unbuffered", True, ["C04"]), ("c04_fdw_write_all_from_g3", False, ["C04"]), ("c04_fdw_write_all_from_g0", False, ["C04"]), ("c04_fdw_write_all_from_g8", False, ["C04"])]:
+    reg(FDW, fn, props, flavour="real", tier="quick" if q else "thorough", timeout=900, mem=16,
+        what="the REAL FuseDevWriter over a borrowed 12-byte buffer with canaries: " + fn[8:],
+        bounds="buffer 12 bytes, split offset concrete (0/4/12, nested 8 then 2); all data bytes, all write lengths (0..6/0..4+0..4/0..5, unbuffered 0..8+0..6), file-transfer count (all usize), bytes produced (0..8), device refusal / short acceptance symbolic",
+        functions=FDW_FUNCS, stubs=FDW_STUBS, role=fn)
 # c04_split_* and c17_dirty_split_* exist in the harness file but are NOT registered: IoBuffers::split_at
 # (VecDeque::split_off + pop/push) ran out of memory at 24 GB for every offset tried (see DESIGN.md).
 for fn, q in [("c17_dirty_write_8_8", True), ("c17_dirty_write_3_8", True), ("c17_dirty_read_8_8", True), ("c17_dirty_write_0_8", True), ("c17_dirty_write_8_0", False),
